@@ -3,6 +3,7 @@ import Astisub.Model.Ops
 import Astisub.Spec.OpsSpec
 import Astisub.Spec.Reach
 import Astisub.Model.Graph
+import Astisub.Model.CLIRun
 
 namespace Astisub
 namespace Driver
@@ -25,17 +26,21 @@ def handleOps (op : String) (args impl : List String) : Verdict :=
     -- one operation through the command-line tool on a SubRip file: what comes out is the model's result
     match par.toInt?, decItems rest with
     | some p, some (xs, []) =>
-      let r : Option (List Item) :=
-        if kind = "frag" then some (Ops.fragment p xs)
-        else if kind = "unfrag" then some (Ops.unfragment xs)
-        else if kind = "add" then some (Ops.add p xs)
+      -- the whole tool as modelled by `CLI.run` (validation, the one library call, `Write` refusing an empty list)
+      let fl0 : CLI.Flags := { inputs := 1, output := true }
+      let r : Option CLI.Outcome :=
+        if kind = "frag" then some (CLI.run "fragment" { fl0 with f := p } "srt" (some xs) none)
+        else if kind = "unfrag" then some (CLI.run "unfragment" fl0 "srt" (some xs) none)
+        else if kind = "add" then some (CLI.run "sync" { fl0 with s := p } "srt" (some xs) none)
         else none
       match r with
       | none => .bad "ops.cli: kind"
-      | some ys =>
-        -- an operation that leaves no cue makes the tool fail with the nothing-to-write error (exit status)
-        let m := if ys.isEmpty then "EXIT" else " ".intercalate (toString ys.length :: ys.map fun it =>
-          s!"{it.startAt},{it.endAt},{encStr ("\n".intercalate (it.lines.map lineStr))}")
+      | some out =>
+        -- a refusal and the nothing-to-write error both end the tool with a failure exit status and no file
+        let m := match out with
+          | .wrote _ ys => " ".intercalate (toString ys.length :: ys.map fun it =>
+              s!"{it.startAt},{it.endAt},{encStr ("\n".intercalate (it.lines.map lineStr))}")
+          | _ => "EXIT"
         compare m (joinToks impl) fun _ => false
     | _, _ => .bad "ops.cli: parse"
   | "ops.add2", d1 :: d2 :: _spare :: rest =>
